@@ -381,6 +381,30 @@ def gen_periods(rng, n, tier="quick"):
                               lambda: sun.rahukaalam(o, d, day, tz), {"daytime": day}, tpair)
 
 
+def subsolar(rng, naive):
+    """an observer with the sun (almost exactly) at the zenith, or at the antipode the nadir, at
+    the instant: the azimuth is degenerate there and the code takes a branch of its own"""
+    import math
+    from astral import Observer as _O
+    lat, lon = rng.uniform(-20, 20), rng.uniform(-180, 180)
+    for _ in range(4):
+        st, el = call(sun.elevation, _O(lat, lon), naive, False)
+        st2, az = call(sun.azimuth, _O(lat, lon), naive)
+        if st != "ok" or st2 != "ok":
+            return None
+        dist = math.radians(90.0 - el)
+        b = math.radians(az)
+        p1 = math.radians(lat)
+        s2 = math.sin(p1) * math.cos(dist) + math.cos(p1) * math.sin(dist) * math.cos(b)
+        p2 = math.asin(max(-1.0, min(1.0, s2)))
+        l2 = math.radians(lon) + math.atan2(math.sin(b) * math.sin(dist) * math.cos(p1),
+                                            math.cos(dist) - math.sin(p1) * math.sin(p2))
+        lat, lon = math.degrees(p2), (math.degrees(l2) + 180.0) % 360.0 - 180.0
+    if rng.random() < 0.4:
+        lat, lon = -lat, (lon + 360.0) % 360.0 - 180.0
+    return lat, lon
+
+
 def rand_instant(rng, z=None):
     o = rng.randint(gens.D1900, gens.D2100)
     secs = rng.choice([rng.randint(0, 86399), 0, 86399, 43200, 1800])
@@ -411,6 +435,30 @@ def gen_angles(rng, n, tier="quick"):
                 corner = offm
             except OverflowError:
                 corner = None
+        if corner is None and rng.random() < 0.05:
+            sl = subsolar(rng, naive)
+            if sl is not None:
+                from astral import Observer as _O4
+                for dlat, dlon in ((0.0, 0.0), (1e-7, 0.0), (0.0, 1e-7), (0.01, 0.01), (-0.03, 0.02)):
+                    o = _O4(sl[0] + dlat, sl[1] + dlon, 0.0)
+                    for which in ("azimuth", "zenith", "zenith_and_azimuth"):
+                        base = "%s %s %s" % (obs_tok(o), I(wall_us(naive)), N)
+                        descr = {"observer": obs_descr(o), "datetime": naive.isoformat(), "zone": "naive",
+                                 "with_refraction": True, "fold": 0, "sub-solar": True}
+                        i += 1
+                        if which == "azimuth":
+                            st, v = call(sun.azimuth, o, naive)
+                            yield Case("azimuth", "azimuth %s" % base, tok_res(st, v, FS), descr)
+                        elif which == "zenith":
+                            st, v = call(sun.zenith, o, naive, True)
+                            yield Case("zenith", "zenith %s %s" % (base, B(True)), tok_res(st, v, FS), descr)
+                        else:
+                            st, v = call(sun.zenith_and_azimuth, o, naive, True)
+                            yield Case("zenith_and_azimuth", "zenith_and_azimuth %s %s" % (base, B(True)),
+                                       ("%s %s" % (FS(v[0]), FS(v[1]))) if st == "ok" and type(v) is tuple
+                                       and len(v) == 2 else (E(v) if st != "ok" else "X%s" % type(v).__name__),
+                                       descr)
+                continue
         zamb = None
         if corner is None and rng.random() < 0.08:
             zamb, n_ = zones.ambiguous_instant(rng)
